@@ -102,6 +102,7 @@ class World:
         self.removed: dict[str, tuple[object, int, int]] = {}  # uid -> (node, node_id, slot)
         self.fault = FaultPlan()
         self._classes = {}
+        self.deser_cache = {}
         self.tree_seq = 0
 
     # --- tree construction ----------------------------------------------------
@@ -130,7 +131,13 @@ class World:
             world.fault.tick("mapper")
             if "str" in data and "type" not in data:
                 return data["str"]
-            return decode_value(data, nt)
+            core = {k: v for k, v in data.items()
+                    if k in ("type", "v", "name", "age", "guid")}
+            key = repr(sorted(core.items()))
+            cache = world.deser_cache
+            if key not in cache:  # equal stored values give one object per load
+                cache[key] = decode_value(core, nt)
+            return cache[key]
 
         base = nt.Tree if flavour == "sub" else nt.TypedTree
         key_map = dict(base.DEFAULT_KEY_MAP)
